@@ -42,6 +42,7 @@ PROFILES = [
 ]
 # one hand-written world per named root cause observed on the pinned tree (exhibited at every seed)
 DIRECTED = [
+    compz.PAYLOAD_INDEX_STRESS + (["default", "no-sig-flattening", "autodrop"],),
     ("stdint-names", "w", "package a:b;\nworld w { import f: func(int32-t: u8, size-t: u8) -> u8; export g: func(uint8-t: u8) -> u8; }\n", ["default"]),
 ]
 STUBS = os.path.join(vcommon.VERIF, "support", "c-stubs")
@@ -132,6 +133,9 @@ def run_job(job, workroot, tools, support_o):
     if stage in ("harness", "encoder-panic", "decode"):
         return {"status": "inconclusive", "why": "componentize %s: %s" % (stage, compz.normalise(r.get("error", "")))}
     if stage == "encode":
+        if re.search(r"requires a (stream|future) type|(future|stream)\.[a-z.-]+` requires", r.get("error", "")):
+            return {"status": "violation", "stage": "encode", "sig": "c:encode:payload-intrinsic-index",
+                    "what": "component encoder rejects a future/stream intrinsic (payload type index points at the wrong kind): " + r.get("error", "")[:500]}
         return {"status": "violation", "stage": "encode", "sig": compz.signature(job, "c:encode:", compz.normalise(re.sub(r"\(at offset 0x[0-9a-f]+\)", "", r.get("error", "").split(": ")[-1]))),
                 "what": "component encoder rejects the linked module: " + r.get("error", "")[:600]}
     kinds = sorted({k for k, _ in r.get("diff", [])})
